@@ -134,3 +134,15 @@ package p2pmux
 //@   ensures [negative] ghost(failed) ==> ret < 0
 //@   after call (*muxCore).serveLoop$1$1:
 //@     set failed = res0 != nil
+
+// Close of a channel swarm closes both of its hubs
+//@ func (*muxCore).deleteSwarm
+//@   trusted
+//@   assumeframe
+//@   ensures true
+//@
+//@ func (*muxedSwarm).Close
+//@   noframe
+//@   requires ms != nil && ms.m != nil && inv(ms.tellHub) && inv(ms.askHub)
+//@   ensures [hubsclosed] closed(old(ms.tellHub.closed)) && closed(old(ms.askHub.closed))
+//@   ensures [marked] ms.isClosed
